@@ -8,7 +8,7 @@ use crate::revision::AtomicRevision;
 use crate::zalsa_local::{OriginAndExtra, QueryRevisions, QueryRevisionsExtra};
 use crate::Durability;
 
-/// The salsa struct a `VFn` is keyed by (never looked up in these harnesses).
+/// The salsa struct a `VFn` is keyed by: backed by a page-backed `VIn` input value.
 pub(crate) struct VStruct;
 
 impl SalsaStructInDb for VStruct {
@@ -23,8 +23,10 @@ impl SalsaStructInDb for VStruct {
         unimplemented!()
     }
 
-    unsafe fn memo_table(_: &Zalsa, _: Id, _: Revision) -> crate::table::memo::MemoTableWithTypes<'_> {
-        unimplemented!()
+    unsafe fn memo_table(zalsa: &Zalsa, id: Id, current_revision: Revision) -> crate::table::memo::MemoTableWithTypes<'_> {
+        // a `VStruct` is stored as a page-backed `VIn` input value
+        // SAFETY: the caller passes the current revision.
+        unsafe { zalsa.table().memos::<crate::input::Value<crate::input::verif::VIn>>(id, current_revision) }
     }
 
     fn entries(_: &Zalsa) -> impl Iterator<Item = crate::DatabaseKeyIndex> + '_ {
